@@ -12,6 +12,8 @@ operations:
   ("api_ok", NAME)          the scenario's API line NAME must report ok=true
   ("on_thread_window", ACQ, REL, INSIDE, THREAD) every INSIDE event of THREAD lies inside an
                             ACQ..REL window of the same thread
+  ("json_range", LIT_TY, COL_TY, SIDE, KIND, LIT, VAL) the solver's counterexample of a bound
+                            transformation obligation, run as a real range query on a real index
 Events are written "op" or "op:path-suffix".
 """
 import json, os, re, subprocess, shutil
@@ -30,8 +32,8 @@ def build(scratch):
     return (exe if p.returncode == 0 and os.path.exists(exe) else None), p.stdout[-2000:]
 
 
-def run(exe, fail=None, timeout=120):
-    cmd = [exe] + (["--fail", fail] if fail else [])
+def run(exe, fail=None, timeout=120, extra=None):
+    cmd = [exe] + (["--fail", fail] if fail else []) + list(extra or [])
     try:
         p = subprocess.run(cmd, stdout=subprocess.PIPE, stderr=subprocess.PIPE, text=True, timeout=timeout)
     except subprocess.TimeoutExpired:
@@ -126,6 +128,10 @@ def confirm(rec, native, scratch, verif_root):
                 elif p[0] == "api_ok":
                     line = next((e for e in ev if e.get("api") == p[1]), None)
                     r = {"violated": (line is None or not line["ok"]), "api": line}
+                elif p[0] == "json_range":
+                    pe = run(exe, extra=["--json-range"] + [str(x) for x in p[1:]])
+                    line = next((e for e in (pe or []) if e.get("api") == "json_range"), None)
+                    r = {"violated": (line is not None and not line["ok"]), "api": line}
                 elif p[0] == "on_thread_window":
                     r = pred_window(ev, p[1], p[2], p[3], p[4])
                 else:
